@@ -191,6 +191,18 @@ theorem C03_methods_are_spec [Inhabited V] (m : Spec.AMap K V) (k : K) (v : V) (
    ⟨(Proofs.Wrappers.loadAndDelete_spec m k v g _ (Or.inl rfl)).1, (Proofs.Wrappers.loadAndDelete_spec m k v g _ (Or.inl rfl)).2.1⟩,
    (Proofs.Wrappers.delete_spec m k v g _ (Or.inl rfl)).1⟩
 
+/-- the operations of M4a that the trace acceptor starts for the API calls of the real code are the calls of `doCompute`
+those methods make in the working tree (both files: `Proofs.Wrappers.twins`) -/
+theorem C03_C04_model_ops_are_methods [Inhabited V] (k : K) (x : V) (g : Option V → V × Bool) :
+    Model.Proto.api "store" k x g = some (.dc k (Gen.Deep.Map_Store.fnOf x g) Gen.Deep.Map_Store.lie Gen.Deep.Map_Store.co) ∧
+    Model.Proto.api "loadorstore" k x g = some (.dc k (Gen.Deep.Map_LoadOrStore.fnOf x g) Gen.Deep.Map_LoadOrStore.lie Gen.Deep.Map_LoadOrStore.co) ∧
+    Model.Proto.api "loadandstore" k x g = some (.dc k (Gen.Deep.Map_LoadAndStore.fnOf x g) Gen.Deep.Map_LoadAndStore.lie Gen.Deep.Map_LoadAndStore.co) ∧
+    Model.Proto.api "loadorcompute" k x g = some (.dc k (Gen.Deep.Map_LoadOrCompute.fnOf x g) Gen.Deep.Map_LoadOrCompute.lie Gen.Deep.Map_LoadOrCompute.co) ∧
+    Model.Proto.api "compute" k x g = some (.dc k (Gen.Deep.Map_Compute.fnOf x g) Gen.Deep.Map_Compute.lie Gen.Deep.Map_Compute.co) ∧
+    Model.Proto.api "loadanddelete" k x g = some (.dc k (Gen.Deep.Map_LoadAndDelete.fnOf x g) Gen.Deep.Map_LoadAndDelete.lie Gen.Deep.Map_LoadAndDelete.co) ∧
+    Model.Proto.api "delete" k x g = some (.dc k (Gen.Deep.Map_Delete.fnOf x g) Gen.Deep.Map_Delete.lie Gen.Deep.Map_Delete.co) :=
+  Proofs.Wrappers.api_is_wrappers k x g
+
 /-! ### the global linearization of a run (`Proofs/ProtoHW.lean`)
 
 `wlog ts H` is ONE sequential history per run, built from the steps of the run: a commit or lock-protected hit on the
